@@ -15,6 +15,9 @@ CHECKS = {
  "C03": dict(engine="E5", technique="exhaustive enumeration of a finite language of application programs x request shapes on the real server, wire decoded by an independent client-side parser",
    text="Every program of the response language (status class x delivery path x all chunk sequences up to the stated length x declared Content-Length relation x start_response re-call x failure step) crossed with method/version/Connection/pipelining depth is executed; the wire must parse as one complete response per executed request with the program's status, headers and body (cut at a declared length), undelimitable responses must end the connection, closure must be announced when known in advance, and a response that does not announce closing must be followed by service of the next request.",
    note="one fixed schedule, client reads everything; HEAD-with-body and multi/non-decimal Content-Length applications are outside the quantifier", ref="DESIGN.md §4 C03"),
+ "C04": dict(engine="E1", technique="stateless exhaustive schedule enumeration (pre-emption/deviation bounded) of the real channel, tasks, dispatcher and I/O loop under a controlled scheduler with a virtual OS",
+   text="For each pipeline scenario (two/three requests, bodies split over segments, Connection: close in the middle, a pipelined expecting request, lookahead 0..2, 1-2 workers, short-send choices) every interleaving of the I/O thread and the workers within the deviation bound is executed on the real code; application invocations must be sequential, in arrival order, each exactly once, and the client's byte log must equal, final response by final response, the wire of a sequential reference run.",
+   note="CPython line atomicity; scheduling points at every HTTPChannel/dispatcher source line and every virtual lock/condition/socket/pipe/select operation; bounds per scenario in evidence.parts", ref="DESIGN.md §4 C04, §2 E1, appendix B"),
  "C06": dict(engine="E2", technique="exhaustive boundary enumeration of limits x sizes x read sizes + explicit-state token BFS under tiny limits on the real parser, against the reference verdict and a consumption bound",
    text="Every case of the boundary sweeps (head length vs header limit at -1/0/+1, declared and chunked body sizes around the body limit, unterminated lines past tiny limits, numbers of up to 10^5 digits, odd targets) x read sizes {1,7,8192}, and every token sequence up to the stated depth under limits (header 24, body 8), runs on the real server: refused messages never reach the application, exactly one well-formed 400/413/431/501 is sent and the socket closed, no exception escapes an event handler, nothing hangs, and consumption stops within one read of crossing the limit.",
    note="lookahead 0; one fixed schedule; a 20 s watchdog defines 'hang'", ref="DESIGN.md §4 C06"),
